@@ -369,6 +369,16 @@ class Interp(Engine):
             base.elem = lambda t, old=old_elem, iz=iz, v=v: CaseV([(t == iz, v), (t != iz, old(t))])
             base.term = None
             return
+        if isinstance(base, ArrV) and len(base.shape) == 1 and not base.clauses and isinstance(idx, SeqV) \
+                and getattr(idx, 'perm', False) and isinstance(v, (SeqV, RangeV)) and not self.loops:
+            # s[P] = v with P a permutation of range(len(s)): every cell is written once, s[k] = v[P^-1(k)]
+            vs = self.as_seq(v)
+            st, _, _ = self.prove(z3.And(idx.zlen() == base.shape[0], vs.zlen() == idx.zlen()))
+            if st == 'proved':
+                base.perm_store = (idx, vs)
+                base.term = z3.Const(fresh_name('arr'), V)
+                return
+            raise Undecided('scatter through a permutation whose length is not the length of the array')
         if isinstance(base, ArrV):
             index = self.norm_index(idx, len(base.shape))
             clause = ([], z3.BoolVal(True), index, v)
@@ -1347,6 +1357,8 @@ class Interp(Engine):
                 return len(base.shape)
             if isinstance(base, ArrV) and name == 'T' and len(base.shape) <= 1:
                 return base
+            if isinstance(base, SeqV) and base.kind == 'array' and name == 'size' and getattr(base, 'rows2d', None) is None:
+                return self.seq_len(base)
             if isinstance(base, (SeqV, ArrV)) and name in ('T', 'size', 'dtype'):
                 return self.app(f'attr.{name}', [base], tag='ndarray' if name == 'T' else None)
             if isinstance(base, SeqV) and name == 'shape' and base.kind == 'array':
@@ -1495,6 +1507,14 @@ class Interp(Engine):
                     raise PyRaise('IndexError')
             if isinstance(base, tuple):
                 return self.seq_elem(self.as_seq(base), self.as_int(idx))
+        if isinstance(base, ArrV) and getattr(base, 'perm_store', None) is not None and not base.clauses:
+            pidx, pval = base.perm_store
+            if isinstance(idx, SeqV):
+                return SeqV(length=idx.zlen(), kind='array', esort=pval.esort,
+                            elem=lambda t: self.seq_elem(pval, pidx.inv(self.as_int(self.seq_elem(idx, t)))))
+            if isinstance(idx, (int, SV)) and not isinstance(idx, bool):
+                return self.seq_elem(pval, pidx.inv(self.as_int(idx)))
+            raise Undecided('read of a permutation-scattered array with this kind of index')
         if isinstance(base, SeqV):
             if base.items is not None and isinstance(idx, int):
                 try:
